@@ -9,6 +9,7 @@ mod heavy;
 mod ops_svgw;
 mod ops_pathmut;
 mod ops_quartic;
+mod ops_assign;
 
 pub struct Rd<'a> {
     pub t: Vec<&'a str>,
@@ -212,7 +213,10 @@ fn run_line(line: &str) -> String {
             None => match heavy::run(op, &mut rd) {
                 None => match ops_svgw::run(op, &mut rd) {
                     None => match ops_pathmut::run(op, &mut rd) {
-                        None => ops_quartic::run(op, &mut rd),
+                        None => match ops_quartic::run(op, &mut rd) {
+                            None => ops_assign::run(op, &mut rd),
+                            x => x,
+                        },
                         x => x,
                     },
                     x => x,
